@@ -405,4 +405,5 @@ def main():
 
 
 if __name__ == "__main__":
-    main()
+    from framework import guarded
+    guarded("C04", main)
